@@ -156,6 +156,12 @@ Proof.
   pose proof (aux_get_refs s0 s b H) as H1. destruct (get_refs s b) as [syms s1]; cbn [snd] in H1.
   repeat match goal with |- aux _ (snd (if ?c then _ else _)) => destruct c; cbn [snd]; auto end.
 Qed.
+Lemma aux_join_syms s0 s s' a b z : aux s0 s -> join_syms s a b z = Ok s' -> aux s0 s'.
+Proof.
+  unfold join_syms; intros H E. destruct z; [|eapply aux_do_retarget; eauto].
+  pose proof (aux_get_refs s0 s b H) as H1. destruct (get_refs s b) as [syms s1]; cbn [snd] in H1.
+  inversion E; subst. apply aux_fold; auto.
+Qed.
 Lemma aux_join_cfg s0 s a b c z : aux s0 s -> aux s0 (join_cfg s a b c z).
 Proof.
   intros; unfold join_cfg. destruct c; auto. apply aux_remove_function_block_aux.
@@ -269,8 +275,8 @@ Proof.
   destruct (negb ok); [discriminate|].
   rewrite !(aux_the_blk _ _ _ H0) in E.
   set (x1 := the_blk s b1) in *. set (x2 := the_blk s b2) in *.
-  destruct (do_retarget s1 b2 (Some b1) _) as [s2|] eqn:E2; cbn [bind] in E; [|discriminate].
-  pose proof (aux_do_retarget _ _ _ _ _ _ H0 E2) as H2.
+  destruct (join_syms s1 b1 b2 _) as [s2|] eqn:E2; cbn [bind] in E; [|discriminate].
+  pose proof (aux_join_syms _ _ _ _ _ _ H0 E2) as H2.
   destruct (join_align _ b1 b2 _) as [s3|] eqn:E3; cbn [bind] in E; [|discriminate].
   assert (H3 : aux s s3).
   { eapply aux_join_align; [|exact E3]. apply aux_join_cfi, aux_join_otabs, aux_join_cfg, H2. }
